@@ -52,6 +52,8 @@ pub struct Build {
     pub id: u8,
     pub n_ports: usize,
     pub p2p: bool,
+    /// per-port override of `p2p` (ports beyond the list use `p2p`)
+    pub p2p_ports: Vec<bool>,
     pub filter: Option<FilterCfg>,
     pub rec_reply: ReplyMode,
     pub tlv: TlvMode,
@@ -81,6 +83,7 @@ impl Build {
             id,
             n_ports: 1,
             p2p: false,
+            p2p_ports: vec![],
             filter: None,
             rec_reply: ReplyMode::EchoDelay,
             tlv: TlvMode::None,
@@ -127,7 +130,7 @@ impl Build {
             pc.announce_interval = Interval::from_log_2(self.log_announce);
             pc.sync_interval = Interval::from_log_2(self.log_sync);
             pc.announce_receipt_timeout = self.receipt_timeout;
-            pc.delay_mechanism = if self.p2p {
+            pc.delay_mechanism = if self.p2p_ports.get(i).copied().unwrap_or(self.p2p) {
                 DelayMechanism::P2P { interval: Interval::from_log_2(self.log_delay) }
             } else {
                 DelayMechanism::E2E { interval: Interval::from_log_2(self.log_delay) }
